@@ -68,6 +68,13 @@ fn gen_help(rng: &mut Rng, tag: &str) -> Help {
                     }
                     text.push('\n');
                 }
+                6 if p > 0 && rng.chance(1, 2) => {
+                    // help built with the Doc API: a nested document, then more text of the
+                    // same (later) paragraph
+                    let m = format!("AFTER{}x{}", tag, later.len());
+                    text.push_str(&format!(" {{{{doc:NEST{}}}}} {}", tag, m));
+                    later.push(m);
+                }
                 5 if p > 0 && rng.chance(1, 2) => {
                     // fenced code block, sometimes with an empty line inside; what follows it
                     // starts a paragraph of its own
